@@ -6,7 +6,7 @@
 (***************************************************************************)
 EXTENDS Project, TypeLang, Json
 
-CONSTANT Mode,   \* "disc" | "graphs3" | "edges" | "layouts" | "derives" | "emits"
+CONSTANT Mode,   \* "disc" | "graphs3" | "edges" | "edges2" | "layouts" | "derives" | "emits"
          EmitDepth \* 2 | 3 : deepest frame path of the emit cases
 VARIABLE c
 
@@ -47,6 +47,20 @@ EdgeCases ==
        roots |-> {[site |-> rsite, ctx |-> rcx, to |-> "A", ty |-> Ty(rcx, "A")]}]
       : sh \in Shapes, cx \in EdgeCtxs, rsite \in RootSites, rcx \in {"direct", "opt", "vec", "hmapv", "t2b", "resok"},
         sd \in BOOLEAN }
+
+\* ---- C07: an edge realised through TWO nested constructor contexts (Option<HashMap<K, B>>, Vec<(A, Option<B>)>, ...):
+\* "reachability does not depend on how deeply the reference is nested".  B is reachable only through that field;
+\* C is an unreachable serde decoy.  The edge is off the wire iff one of the two contexts is the error arm of a Result.
+Edges2Cases ==
+    { [kind |-> "graph", nodes |-> <<"A", "B", "C">>,
+       edges |-> [n \in N3 |-> IF n = "A"
+                               THEN {[ctx |-> (IF c1 = "reserr" \/ c2 = "reserr" THEN "reserr" ELSE c1), to |-> "B",
+                                      ty |-> Apply(c1, Apply(c2, Node("B")))]}
+                               ELSE {}],
+       serde |-> [n \in N3 |-> TRUE],
+       roots |-> {[site |-> rsite, ctx |-> "direct", to |-> "A", ty |-> Node("A")]}]
+      : <<c1, c2>> \in {p \in Ctxs \X Ctxs : CtxOK(p[2], Node("B")) /\ CtxOK(p[1], Apply(p[2], Node("B")))},
+        rsite \in {"param", "ret"} }
 
 \* ---- C07: the same graphs spread over files.  `place` maps the command file ("cmd") and every type to one of four
 \* file slots; slot order is the order in which the analyser walks the files (path order), so all 256 assignments
@@ -101,6 +115,7 @@ Space == CASE Mode = "disc"    -> DiscCases
            [] Mode = "edges"   -> EdgeCases
            [] Mode = "layouts" -> LayoutCases
            [] Mode = "derives" -> DeriveCases
+           [] Mode = "edges2"  -> Edges2Cases
            [] Mode = "emits"   -> EmitCases
 Init == c \in Space
 Next == UNCHANGED c
